@@ -1,4 +1,5 @@
 import JjModel.Model.Files
+import JjModel.Lemmas.DiffHunks
 /-!
   The three collectors of `files.rs` (`collect_resolved`, `collect_hunks`, `collect_merged`) agree
   on whether a hunk stream is fully resolved, and on the resolved content.
@@ -183,5 +184,91 @@ theorem collectMerged_resolved_iff (hs : List (List Bytes)) (c : Bytes) :
   · intro h
     have := collectMergedGo_resolved hs [[]] c h
     simp [collectMerged, this]
+
+/-- what a hunk contributes to term `k` of the merged result: a resolved hunk is copied to every
+term, an unresolved hunk contributes its own `k`-th term -/
+def termOf (k : Nat) (h : List Bytes) : Bytes :=
+  match h with
+  | [c] => c
+  | _ => h.getD k []
+
+/-- term `k` of the accumulator of `collect_merged`, a resolved accumulator standing for all terms -/
+def accTerm (k : Nat) (acc : List Bytes) : Bytes :=
+  match acc with
+  | [a] => a
+  | _ => acc.getD k []
+
+theorem collectMergedGo_term (hs : List (List Bytes)) (acc r : List Bytes)
+    (h : collectMergedGo hs acc = some r) (k : Nat) (hk : k < r.length) :
+    r.getD k [] = accTerm k acc ++ hs.flatMap (termOf k) := by
+  induction hs generalizing acc with
+  | nil =>
+    simp only [collectMergedGo, Option.some.injEq] at h
+    subst h
+    simp only [List.flatMap_nil, List.append_nil]
+    match acc, hk with
+    | [a], hk => have : k = 0 := by simpa using hk
+                 subst this; rfl
+    | [], hk => simp at hk
+    | _ :: _ :: _, _ => rfl
+  | cons x xs ih =>
+    rw [collectMergedGo] at h
+    split at h
+    · rename_i c hx
+      have hx' : x = [c] := by
+        match x, hx with
+        | [c'], hx => simp [asResolved] at hx; rw [hx]
+      subst hx'
+      rw [ih _ h, List.flatMap_cons]
+      have : accTerm k (acc.map (· ++ c)) = accTerm k acc ++ c := by
+        by_cases h1 : acc.length = 1
+        · match acc, h1 with
+          | [a], _ => rfl
+        · have hrl := collectMergedGo_conflict_length xs _ r (by simpa using h1) h
+          have hka : k < acc.length := by simpa [hrl] using hk
+          have e1 : accTerm k (acc.map (· ++ c)) = (acc.map (· ++ c)).getD k [] := by
+            match acc, h1 with
+            | [], _ => rfl
+            | _ :: _ :: _, _ => rfl
+          have e2 : accTerm k acc = acc.getD k [] := by
+            match acc, h1 with
+            | [], _ => rfl
+            | _ :: _ :: _, _ => rfl
+          rw [e1, e2]
+          simp [List.getD, List.getElem?_map, List.getElem?_eq_getElem hka]
+      rw [this]; simp [termOf, List.append_assoc]
+    · rename_i hx
+      dsimp only at h
+      split at h
+      · rename_i hl
+        have hne := asResolved_none_length x hx
+        have hlz : (List.zipWith (· ++ ·) (expandResolved acc x.length) x).length = x.length := by
+          rw [List.length_zipWith, hl]; simp
+        have hrl := collectMergedGo_conflict_length xs _ r (by rw [hlz]; exact hne) h
+        rw [hlz] at hrl
+        rw [ih _ h, List.flatMap_cons]
+        have hkx : k < x.length := by omega
+        have ht : termOf k x = x.getD k [] := by
+          match x, hne with
+          | [], _ => rfl
+          | [_], hne => simp at hne
+          | _ :: _ :: _, _ => rfl
+        have hacc : accTerm k (List.zipWith (· ++ ·) (expandResolved acc x.length) x) =
+            accTerm k acc ++ x.getD k [] := by
+          have hz : accTerm k (List.zipWith (· ++ ·) (expandResolved acc x.length) x) =
+              (List.zipWith (· ++ ·) (expandResolved acc x.length) x).getD k [] := by
+            generalize hzz : List.zipWith (· ++ ·) (expandResolved acc x.length) x = z at hlz
+            match z, hlz with
+            | [], _ => rfl
+            | [_], hlz => simp at hlz; omega
+            | _ :: _ :: _, _ => rfl
+          rw [hz, getD_zipWith (· ++ ·) _ x k [] [] [] (by rw [hl]; exact hkx) hkx]
+          congr 1
+          match acc with
+          | [a] => simp [expandResolved, accTerm, List.getD, hkx]
+          | [] => rfl
+          | _ :: _ :: _ => rfl
+        rw [hacc, ht, List.append_assoc]
+      · cases h
 
 end JjModel.Files
